@@ -177,8 +177,11 @@ def _comment_end(s: str, i: int) -> int:
         return m + (3 if m == k1 and (k2 < 0 or k1 <= k2) else 4)
 
 
+_ASCII_LOWER = {c: c + 32 for c in range(ord("A"), ord("Z") + 1)}
+
+
 def _find_rawtext_end(s: str, i: int, lname: str) -> Optional[int]:
-    low = s.lower()
+    low = s.translate(_ASCII_LOWER)  # ASCII case-insensitive and length-preserving (str.lower() is neither: U+0130)
     pat = "</" + lname
     k = i
     while True:
@@ -284,3 +287,5 @@ def selftest() -> None:
     assert t[1].data == "x</scriptx>"
     t = tokenize('<p a="1"b="2">')
     assert t[0].attrs == [("a", "1"), ("b", "2")]
+    t = tokenize('<a id="\u0130\u0130"></a><script>x</SCRIPT>y')
+    assert [x.kind for x in t] == ["open", "close", "open", "text", "close", "text"] and t[3].data == "x"
